@@ -7,7 +7,7 @@ AltItem(v) == IF v.k = "iri" THEN Iri(Base \o "alt/1") ELSE IF v.k = "list" THEN
 AltVal(kind, v) ==
   CASE kind \in {"item", "items"} -> AltItem(v)
     [] kind = "nlv" -> Nlv(<<LR(NilTag, "alternative")>>)
-    [] kind = "time" -> [v EXCEPT !.s = v.s + 7200]
+    [] kind = "time" -> [v EXCEPT !.s = IF v.s > 2000000000 THEN v.s - 7200 ELSE v.s + 7200]
     [] kind = "dur" -> [v EXCEPT !.s = v.s + 60]
     [] kind \in {"uint", "int"} -> Int(77)
     [] kind = "float" -> Flt("1.5")
